@@ -17,6 +17,13 @@ SERVICES = [(0x1111, 1, 1, 1), (0x1111, 2, 1, 1), (0x2222, 1, 1, 7)]
 FILTERS = [C.Service(0x1111), C.Service(0x1111, 1), C.Service(0x1111, 0xFFFF, 1, 1), C.Service(0x2222), C.Service(0x2222, 1, 1, 7),
            C.Service(0x3333)]
 TTLS = [1, 2, 3, 0xFFFFFF]
+# eventgroups a client requests: IPv4 / IPv6 local endpoints, UDP / TCP - two pairs share one local address and port and
+# differ in the transport protocol only (a UDP and a TCP socket bound to the same port)
+CLIENT_EGS = [C.Eventgroup(0x1111, 1, 1, 5, ("10.0.0.9", 4000), H.L4Protocols.UDP),
+              C.Eventgroup(0x1111, 1, 1, 6, ("fe80::9", 4001, 0, 0), H.L4Protocols.TCP),
+              C.Eventgroup(0x2222, 1, 1, 5, ("10.0.0.9", 4002), H.L4Protocols.UDP),
+              C.Eventgroup(0x1111, 1, 1, 7, ("10.0.0.9", 4000), H.L4Protocols.TCP),
+              C.Eventgroup(0x2222, 1, 1, 6, ("fe80::9", 4001, 0, 0), H.L4Protocols.UDP)]
 
 
 def sd_bytes(entries, session_id, reboot, unicast=True):
@@ -153,7 +160,7 @@ class Scenario:
         rng = self.rng
         p = rng.choice(self.peers)
         mc = rng.random() < 0.5
-        sid, iid, maj, mi = rng.choice(SERVICES)
+        sid, iid, maj, mi = rng.choice(getattr(self, "find_services", SERVICES))
         f = C.Service(sid, rng.choice([iid, 0xFFFF, 9]), rng.choice([maj, 0xFF]), rng.choice([mi, 0xFFFFFFFF, 3]))
         flag, sess = p.next(mc)
         self.rec.inp(impl.loop.ticks, ("dgram", p.n, mc, flag, sess, True, [("find", (f.service_id, f.instance_id, f.major_version, f.minor_version))]))
@@ -273,10 +280,7 @@ class Scenario:
 
     def in_client_sub(self, impl):
         rng = self.rng
-        egs = [C.Eventgroup(0x1111, 1, 1, 5, ("10.0.0.9", 4000), H.L4Protocols.UDP),
-               C.Eventgroup(0x1111, 1, 1, 6, ("fe80::9", 4001, 0, 0), H.L4Protocols.TCP),
-               C.Eventgroup(0x2222, 1, 1, 5, ("10.0.0.9", 4002), H.L4Protocols.UDP)]
-        g = rng.choice(egs)
+        g = rng.choice(CLIENT_EGS)
         d = rng.choice(self.peers).n
         key = (sdio.eg_tok(g), d)
         if key in self.subscribed:
